@@ -380,13 +380,12 @@ class ErrorToken(TokenT):
     @property
     def start(self) -> int:
         """Return the start position of this token."""
-        # `value` is the text the lexer had scanned when it gave up at `index`.
-        return self.index - len(self.value)
+        return self.index
 
     @property
     def stop(self) -> int:
         """Return the end position of this token."""
-        return self.index
+        return self.index + len(self.value)
 
 
 def is_content_token(token: TokenT) -> TypeGuard[ContentToken]:
